@@ -96,9 +96,12 @@ impl<'tree> Graph<'tree> {
 
     pub fn display_json(&self, path: Option<&Path>) -> std::io::Result<()> {
         let s = serde_json::to_string_pretty(self).unwrap();
-        path.map_or(stdout().write_all(s.as_bytes()), |path| {
-            File::create(path)?.write_all(s.as_bytes())
-        })
+        // `map_or` would evaluate the stdout branch eagerly, printing the JSON even when a path
+        // is given
+        match path {
+            Some(path) => File::create(path)?.write_all(s.as_bytes()),
+            None => stdout().write_all(s.as_bytes()),
+        }
     }
 
     // Returns an iterator of references to all of the nodes in the graph.
